@@ -13,6 +13,7 @@ pub mod bb;
 pub mod eng;
 pub mod gen;
 pub mod json;
+pub mod miri;
 pub mod oracle;
 pub mod props;
 pub mod refsearch;
@@ -31,6 +32,13 @@ fn main() {
     let args: Vec<String> = std::env::args().collect();
     if args.len() < 2 {
         usage();
+    }
+    if args[1] == "miri" {
+        // before any signal handler or descriptor juggling: this entry point runs under the interpreter
+        let id = args.get(2).cloned().unwrap_or_default();
+        let seed = args.get(3).and_then(|s| s.parse::<u64>().ok()).unwrap_or(1);
+        let scale = args.get(4).and_then(|s| s.parse::<u64>().ok()).unwrap_or(1);
+        std::process::exit(miri::run(&id, seed, scale));
     }
     report::install_panic_hook();
     report::install_fatal_signal_journal();
